@@ -139,6 +139,17 @@ def rule_r1(chk, db):
         root = db.root_of(b)
         sl = flow.backward(b, t["args"][0])
         srcs = [callee_def(x) for _, x, _ in sl.calls if not flow.is_transparent(x)]
+        if b.kind == "Closure" and sl.params and db.body(b.parent) is not None:
+            # `result.map_err(|err| HttpError::new(Box::new(err)))`: the error is whatever the adaptor's receiver carries
+            par = db.body(b.parent)
+            for _, _, st in par.stmts():
+                if st["rv"]["k"] == "agg" and st["rv"].get("def") == b.name and not st["dst"]["proj"]:
+                    cl = st["dst"]["l"]
+                    for bi2, t2 in par.calls():
+                        if short(callee_def(t2)) in ("map_err", "or_else", "unwrap_or_else", "map_or_else") and len(t2["args"]) >= 2 and \
+                                any(flow.op_place(a) is not None and flow.op_place(a)["l"] == cl for a in t2["args"][1:]):
+                            s2 = flow.backward(par, t2["args"][0], at=bi2)
+                            srcs += [callee_def(x) for _, x, _ in s2.calls if not flow.is_transparent(x)]
         ok = any(s.endswith("s3s::ops::call") for s in srcs) and "S3Service" in root.name
         chk.verdict(ok, "R1", "HttpError@" + root.name.replace("s3s::", ""), b.loc(bi),
                     "HttpError (transport-level failure) is built from something other than the renderer's own failure: %s" % srcs[:4])
